@@ -281,19 +281,71 @@ impl Harness {
             (w.avail_idx_mem(q).unwrap_or(0), w.store_events, ring)
         });
         let avail_desc_before = self.q.available_desc();
+        // Fault: the heap allocation of the indirect table fails. The library reports that as a
+        // panic (it unwraps zerocopy's AllocError); an error return would do as well. Either way
+        // the submission did not happen and must have had no side effects - or, if the library
+        // chose to publish the chain directly instead, that needs `n` free descriptors.
+        let heap_fault = expect_ok && self.c.indirect && n > 1 && with(|w| w.cfg.heap_faults) && flip(1, 6);
+        if heap_fault {
+            crate::heapwatch::arm_zeroed_failure(16 * n);
+        }
         let res = {
             let ins: Vec<&[u8]> = inputs.iter().map(|b| &b[..]).collect();
             let mut outs: Vec<&mut [u8]> = outputs.iter_mut().map(|b| &mut b[..]).collect();
             // SAFETY: the buffers are kept alive (boxed, owned by `Sub`) until popped.
-            unsafe { self.q.add(&ins, &mut outs) }
+            let q = &mut self.q;
+            if heap_fault { crate::runner::guarded(|| unsafe { q.add(&ins, &mut outs) }) } else { Ok(unsafe { q.add(&ins, &mut outs) }) }
         };
+        let heap_fault = heap_fault && crate::heapwatch::disarm_zeroed_failure();
         let cap = with(|w| {
             w.add_guard = None;
             w.hal.capture.take().unwrap_or_default()
         });
+        let mut fallback_direct = false;
+        let res = match res {
+            Ok(r) => {
+                if heap_fault && r.is_ok() {
+                    // published without a table: a direct chain, which costs n descriptors
+                    fallback_direct = true;
+                    probe("heap_failure_direct_fallback");
+                }
+                r
+            }
+            Err((msg, loc)) => {
+                fault("heap_alloc_fail");
+                oplog(|| format!("  (table allocation failed: panic at {loc}: {msg})"));
+                let (idx_after, stores_after) = with(|w| (w.avail_idx_mem(q).unwrap_or(0), w.store_events));
+                if !cap.is_empty() || idx_after != idx_before || stores_after != stores_before || self.q.available_desc() != avail_desc_before {
+                    violation(
+                        "refused-add-side-effect",
+                        "add/indirect",
+                        format!(
+                            "add that failed because its indirect table could not be allocated had side effects: {} hal events, available index {idx_before}->{idx_after}, {} stores, available_desc {}->{}",
+                            cap.len(),
+                            stores_after - stores_before,
+                            avail_desc_before,
+                            self.q.available_desc()
+                        ),
+                    );
+                }
+                return None;
+            }
+        };
+        if heap_fault {
+            fault("heap_alloc_fail");
+        }
+        let expect_ok = expect_ok && (!fallback_direct || self.held + n <= self.c.size);
         let site = if self.c.indirect && n > 1 { "add/indirect" } else { "add/direct" };
         match res {
             Err(e) => {
+                if heap_fault {
+                    // an error return instead of a panic: fine, as long as nothing happened
+                    let (idx_after, stores_after) = with(|w| (w.avail_idx_mem(q).unwrap_or(0), w.store_events));
+                    if !cap.is_empty() || idx_after != idx_before || stores_after != stores_before || self.q.available_desc() != avail_desc_before {
+                        violation("refused-add-side-effect", site, format!("add that failed with {e:?} (table allocation failure) had side effects"));
+                    }
+                    return None;
+                }
                 if expect_ok {
                     violation("add-refused-wrongly", site, format!("add of {n_in}+{n_out} buffers refused with {e:?} although {} of {} descriptors are free", self.free(), self.c.size));
                     return None;
@@ -367,7 +419,7 @@ impl Harness {
                     }
                     expected.push(Elem { addr: m[0].0, len: *len as u32, write: *dir == Dir::DeviceToDriver });
                 }
-                let uses_table = self.c.indirect && n > 1;
+                let uses_table = self.c.indirect && n > 1 && !fallback_direct;
                 let mut table = None;
                 if ok {
                     let extra: Vec<_> = shares.iter().filter(|s| !bufs.iter().any(|b| b.0 == s.1)).collect();
@@ -433,7 +485,7 @@ impl Harness {
                         }
                     }
                 }
-                let cost = self.cost(n);
+                let cost = if fallback_direct { n } else { self.cost(n) };
                 self.held += cost;
                 let in_hash = {
                     let mut all = Vec::new();
@@ -877,6 +929,12 @@ pub fn history() {
 /// The same history against a device that sometimes records a used length different from what it
 /// wrote (a fault the queue layer must pass through unchanged: it reports what the device
 /// recorded).
+/// The same history on a platform where the heap allocation of an indirect table sometimes fails.
+pub fn history_heapfail() {
+    with(|w| w.cfg.heap_faults = true);
+    history();
+}
+
 pub fn history_faulty() {
     with(|w| w.personality::<PatternDevice>().lie_len = true);
     history();
